@@ -60,7 +60,10 @@ def extra_events(w):
     nxt = min(calls) if calls else None
     mode = w.cfg["mode"]
     responsive_ok = True
-    if mode == "responsive" or (mode == "silent" and w.g["silent_at"] is None):
+    c_now = w.sides[0].manager._connection
+    healed = (mode == "blackhole" and w.g["silent_at"] is not None and c_now is not None
+              and c_now.transport.link.idx > w.g.get("silent_maxlink", -1))
+    if mode == "responsive" or (mode in ("silent", "blackhole") and w.g["silent_at"] is None) or healed:
         # the peer answers every ping in less than one interval: time may not advance (by half an interval) while a ping
         # has already been outstanding for half an interval
         age = outstanding_age(w)
@@ -71,7 +74,7 @@ def extra_events(w):
             evs.append(("tick",))
         else:
             evs.append(("expire",))
-    if mode == "silent" and w.g["silent_at"] is None and w.sides[0].manager._connection is not None:
+    if mode in ("silent", "blackhole") and w.g["silent_at"] is None and w.sides[0].manager._connection is not None:
         evs.append(("silence",))
     return evs
 
@@ -91,6 +94,9 @@ def extra_apply(w, ev):
         return True
     if k == "silence":
         w.g["silent_at"] = w.now
+        # "blackhole" regime: only the connections that exist now go silent (a dead path); later ones work
+        w.g["silent_maxlink"] = len(w.net.links) - 1
+        w.g["silent_link"] = w.sides[0].manager._connection.transport.link.idx
         return True
     return False
 
@@ -117,6 +123,8 @@ def mon(w):
     if g["silent_at"] is not None:
         # reference: the last answered ping on the connection that went silent
         link = [p[3] for p in g["pings"]][-1] if g["pings"] else None
+        if w.cfg["mode"] == "blackhole":
+            link = g["silent_link"]
         answered = [p for p in g["pings"] if p[2] is not None and p[3] == link]
         t_last = max([p[1] for p in answered]) if answered else min([p[1] for p in g["pings"] if p[3] == link] or [g["silent_at"]])
         dropped = [t for (t, l) in g["disconnects"] if l == link]
@@ -155,6 +163,16 @@ def mon(w):
 def fin(w):
     out = []
     g = w.g
+    if g["silent_at"] is not None and w.cfg["mode"] == "blackhole":
+        # the dead path was given up: a new generation must have produced a working, monitored connection
+        if [t for (t, l) in g["disconnects"] if l == g["silent_link"]]:
+            st = (w.mstate(0), w.mstate(1))
+            c = w.sides[0].manager._connection
+            if st != ("CONNECTED", "CONNECTED") or c is None or c.transport.link.idx <= g["silent_maxlink"]:
+                out.append(dict(oracle="replace-silent", sig="no-new-connection:%s/%s" % st,
+                                msg="the silent connection was dropped and later connections work, but at quiescence the managers are %s / %s "
+                                    "(errors %r, logged %r)" % (st[0], st[1], w.errors, w.logged[-2:])))
+        return out
     if g["silent_at"] is not None:
         link = [p[3] for p in g["pings"]][-1] if g["pings"] else None
         c = w.sides[0].manager._connection
@@ -180,8 +198,10 @@ def mk(name, mode, I, **kw):
         def all_enabled():
             evs = orig()
             if w.g["silent_at"] is not None:
-                sel = None
-                evs = [e for e in evs if e[0] != "deliver"]
+                if w.cfg["mode"] == "blackhole":
+                    evs = [e for e in evs if e[0] != "deliver" or e[1] > w.g["silent_maxlink"]]
+                else:
+                    evs = [e for e in evs if e[0] != "deliver"]
             return evs
         w._all_enabled = all_enabled
         return w
@@ -194,6 +214,8 @@ def scenarios(tier):
     for I in (1.0, 30.0):
         S.append(mk("responsive-I%g" % I, "responsive", I, max_ticks=8 if q else 12, max_depth=40 if q else 60, max_states=400000))
         S.append(mk("silent-I%g" % I, "silent", I, max_ticks=14 if q else 18, max_depth=40 if q else 60, max_states=400000))
+    # only the path in use goes dead; the replacement connection works and must be adopted and monitored
+    S.append(mk("blackhole-I1-dev", "blackhole", 1.0, max_ticks=12 if q else 16, dev_bound=3 if q else 4, max_depth=80))
     S.append(mk("responsive-lose1-I1", "responsive", 1.0, lose=1, lose_both=True, max_ticks=8, dev_bound=3 if q else 4, max_depth=80))
     S.append(mk("silent-lose1-I1", "silent", 1.0, lose=1, lose_both=True, max_ticks=10, dev_bound=3 if q else 4, max_depth=80))
     return S
